@@ -28,17 +28,26 @@ def harness_fp():
     return h.hexdigest()
 
 
-def build(scen, extra=None):
-    """Returns (exe or None, error text)."""
+def build(scen, extra=None, flavour=None):
+    """Returns (exe or None, error text).  flavour="binary" links the harness' binary semaphore instead of the futex one."""
     with Lock("hbuild"):
-        env, stamp, fp = build_lib()
+        hout = HOUT + ("_" + flavour if flavour else "")
+        fp = repo_fingerprint() + harness_fp()
+        stamp = os.path.join(hout, "FINGERPRINT")
+        env = dict(os.environ)
+        if not os.path.exists(stamp) or open(stamp).read() != fp:
+            env["VRT_REBUILD"] = "1"
+            if os.path.exists(stamp):
+                os.remove(stamp)
+        if flavour:
+            env["VRT_SEMFLAVOUR"] = flavour
         env["VERIF_REPO"] = REPO
         src = os.path.join(HARNESS, "scen", scen + ".c")
-        rc, out, err = sh([os.path.join(HARNESS, "build.sh"), HOUT, src] + (extra or []), env=env, timeout=300)
+        rc, out, err = sh([os.path.join(HARNESS, "build.sh"), hout, src] + (extra or []), env=env, timeout=300)
         if rc != 0:
             return None, (err or out)[-1500:]
         open(stamp, "w").write(fp)
-        return os.path.join(HOUT, scen), None
+        return os.path.join(hout, scen), None
 
 
 def run_one(exe, seed, env_extra, timeout):
